@@ -2,6 +2,23 @@ from sqv.driver import Obligation
 from sqv import nodes
 
 
+TEMPLATES = [
+    "a + b if c else a - b",
+    "l | map(v => v + a)",
+    "l | filter(v => v > a) | len",
+    "l | reduce((x, y) => x + y) if l else zero",
+    "sorted(l, v => zero - v)",
+    "h(v => v + one)",
+    "f = x => f(x - one) if x > zero else zero\nf(a)",
+    "x = [a]\nx[zero] = b\nx.push(a)\nx[zero] + x[one]",
+    "t(1, c) and t(2, a) or t(3, b)",
+    "[t(1, a), t(2, b)] | map(v => t(3, v))",
+    "d = {'k': a}\nd['k'] += b\ndel d['k']\nt(1, d)",
+]
+SWALLOW = ["h(v => t(1, v) + one)\nt(2)", "h(v => [t(1), t(2)])\nt(3) or t(4)"]
+CROSS = [("f = x => x + a", "f(a)"), ("g = (x, y) => x if y else a\nf = x => g(x, a)", "l = [a, a]\nl | map(f)")]
+
+
 def plan(ctx):
     T = 30 if ctx["tier"] == "quick" else 180
     obs = [Obligation("O1.base_step", "xh", "c01", "base_step", timeout=T,
@@ -20,6 +37,25 @@ def plan(ctx):
                                      "one child may raise; closure called 0..2 times",
                               desc="real node, stub children: charged first, counter == k+1+child evals, "
                                    "ops-limit iff counter reaches N, nothing happens when k+1>=N"))
+    for i, text in enumerate(TEMPLATES):
+        obs.append(Obligation(f"O3.budget.t{i}", "xh", "c01", "api_budget", param={"text": text}, timeout=T * 2,
+                              bounds="N>=1 unbounded; host ints unbounded (a in 0..3 where it drives recursion); host list "
+                                     "length <= 3; host callback calls <= 3",
+                              desc=f"SqParser.eval({text!r}): ops-limit iff independent node count >= N"))
+        obs.append(Obligation(f"O5.monotone.t{i}", "xh", "c01", "api_monotone", param={"text": text}, timeout=T * 2,
+                              bounds="N>=1, d>=0 unbounded; same shapes as O3",
+                              desc=f"{text!r}: success with N => identical with N+d; aborted run's probe log is a prefix"))
+    for i, text in enumerate(TEMPLATES[:3]):
+        obs.append(Obligation(f"O4.default.t{i}", "xh", "c01", "api_default_budget", param={"text": text}, timeout=T,
+                              bounds="host ints unbounded", desc="eval without max_ops_evaluated uses budget 100"))
+    for i, text in enumerate(SWALLOW):
+        obs.append(Obligation(f"O3.swallow.t{i}", "xh", "c01", "api_swallow", param={"text": text}, timeout=T * 2,
+                              bounds="N unbounded; callback calls <= 3",
+                              desc=f"{text!r} under a host callback that swallows errors: no host-visible effect at or after the N-th op"))
+    for i, (d, u) in enumerate(CROSS):
+        obs.append(Obligation(f"O6.cross_eval.t{i}", "xh", "c01", "cross_eval", param={"define": d, "use": u}, timeout=T * 2,
+                              bounds="N1>=4, N2>=1 unbounded; 0..3 intervening evals",
+                              desc=f"lambda defined by eval({d!r}) and used by later eval({u!r}) is charged to the later call's budget"))
     return {
         "obligations": obs,
         "uncovered": uncovered,
